@@ -14,7 +14,7 @@ from phyclone.utils.dev import clear_proposal_dist_caches
 
 ID = "C01"
 LEVEL = "proof"
-THEOREMS = []
+THEOREMS = ["csmc_invariant", "aux_mixture_invariant"]
 BUDGET = {"quick": 150, "thorough": 1200}
 RULE = ("configurations = (data set of 1..3 data points with dyadic likelihoods, alpha in {3/10,1,7/2}, proposal in "
         "{bootstrap, semi-adapted, fully-adapted}, outlier modelling off/on, particles N in {2,3}, resampling threshold in "
@@ -71,12 +71,28 @@ def cases(tier, rnd):
         for si, (f, o) in enumerate(states):
             out.append({"group": gid, "nstates": len(states), "data": ds.to_json(), "alpha": alpha, "kind": kind, "outliers": outl,
                         "wiring": wiring, "N": N, "theta": th, "start": [f, o], "n": n})
+    # the burn-in sampler (unconditional SMC) shares proposals, weights and resampling with the update above:
+    # its exact rows are compared with the model too (correspondence only - it is not meant to be invariant)
+    base = len(out)
+    smc_cfgs = [(2, k, o) for k in KINDS for o in (False, True)] + [(3, k, False) for k in (KINDS if tier == "thorough" else KINDS[:1])]
+    for j, (n, kind, outl) in enumerate(smc_cfgs):
+        S, G = 1, rnd.randint(3, 4)
+        vals = [gen_values(rnd, S, G, bits=3) for _ in range(n)]
+        ds = DataSet(vals, Fraction(1, 5) if outl else Fraction(0))
+        alpha = rnd.choice(["3/10", "1/1", "7/2"])
+        states = all_canon_trees(n, outliers=outl)
+        for f, o in states:
+            out.append({"group": f"smc{j}", "nstates": len(states), "data": ds.to_json(), "alpha": alpha, "kind": kind, "outliers": outl,
+                        "wiring": "burnin", "N": 2, "theta": rnd.choice(["1/2", "9/10"]), "start": [f, o], "n": n})
     # heavier rows first so the pool balances
     out.sort(key=lambda c: -c["n"])
     return out
 
 
 def make_sampler(case, ds, td, rng):
+    if case["wiring"] == "burnin":
+        kernel = setup_kernel(float(ds.outlier_prob), case["kind"], rng, td)
+        return setup_samplers(kernel, case["N"], float(ds.outlier_prob), float(Fraction(case["theta"])), rng, td).burnin_sampler
     if case["wiring"] == "run":
         kernel = setup_kernel(float(ds.outlier_prob), case["kind"], rng, td)
         return setup_samplers(kernel, case["N"], float(ds.outlier_prob), float(Fraction(case["theta"])), rng, td).tree_sampler
@@ -88,7 +104,7 @@ def make_sampler(case, ds, td, rng):
 def model_op(case):
     if not case["outliers"]:
         return "0/1"
-    return "1/10" if case["wiring"] == "run" else "1/5"
+    return "1/5" if case["wiring"] == "lib" else "1/10"
 
 
 def real_row(case, ds, td):
@@ -122,9 +138,10 @@ def check(ctx, case):
     if abs(tot - 1) > 1e-9:
         ctx.corr_fail(case, f"enumerated probabilities sum to {tot}", None)
     lp1 = float(td.log_p_one(build_tree(ds.real, f, o)))
-    ctx.partial(case["group"], {"start": tkey(f, o), "row": row, "lp1": lp1, "nstates": case["nstates"],
-                                "case": {k: v for k, v in case.items() if k != "start"}})
-    ans = ctx.ask({"op": "pg", "data": case["data"], "N": case["N"], "theta": case["theta"],
+    if case["wiring"] != "burnin":
+        ctx.partial(case["group"], {"start": tkey(f, o), "row": row, "lp1": lp1, "nstates": case["nstates"],
+                                    "case": {k: v for k, v in case.items() if k != "start"}})
+    ans = ctx.ask({"op": "smc" if case["wiring"] == "burnin" else "pg", "data": case["data"], "N": case["N"], "theta": case["theta"],
                    "cfg": {"kind": case["kind"], "op": model_op(case), "alpha": case["alpha"], "perm": True},
                    "tree": {"forest": f, "outs": o}})
     mrow = {tkey(t[0], t[1]): Fraction(q) for t, q in ans["dist"]}
